@@ -27,6 +27,10 @@ Definition VarKind (k : kind) : Prop := NumericKind k \/ k = KBoolean.
 Definition RegisterKind (k : kind) : Prop :=
   match k with KIntReg | KMaskedIntReg | KFloatReg | KStringReg => True | _ => False end.
 
+(* kinds whose value comes from a <Value> / <pValue> / <pIndex> element *)
+Definition ValuedKind (k : kind) : Prop :=
+  match k with KInteger | KFloat | KBoolean | KEnumeration | KCommand | KString => True | _ => False end.
+
 (* the entry of a pIndex selected by the current index: the first <ValueIndexed Index=i>, else the default *)
 Definition entry_for (i : Z) (es : list (Z * iop)) (d : iop) : iop :=
   match find (fun e => fst e =? i) es with
@@ -125,3 +129,29 @@ Inductive Writable : nat -> Prop :=
 (* no rule for swiss knives: they are never writable *)
 
 End Spec.
+
+(* --- acyclic stores ------------------------------------------------------------------------- *)
+(* every node a node refers to *)
+Definition iop_refs (i : iop) : list nat := match i with INode m => [m] | _ => [] end.
+Definition vsrc_refs (v : vsrc) : list nat :=
+  match v with
+  | VOne i => iop_refs i
+  | VPValue p cs => p :: cs
+  | VPIndex idx es d => idx :: flat_map (fun e => iop_refs (snd e)) es ++ iop_refs d
+  end.
+Definition opt_refs (o : option nat) : list nat := match o with Some c => [c] | None => [] end.
+Definition refs (nd : node) : list nat :=
+  opt_refs (p_impl nd) ++ opt_refs (p_avail nd) ++ opt_refs (p_lock nd) ++
+  match nkind nd with
+  | KInteger | KFloat | KBoolean | KEnumeration | KCommand | KString => vsrc_refs (nvalue nd)
+  | KIntConverter | KConverter => conv_pvalue nd :: vars nd
+  | KIntSwissKnife | KSwissKnife => vars nd
+  | _ => []
+  end.
+(* a rank that decreases along every reference (e.g. the position in a topologically sorted store) *)
+Definition Acyclic (s : store) (rank : nat -> nat) : Prop :=
+  forall n nd m, nth_error s n = Some nd -> In m (refs nd) -> (rank m < rank n)%nat.
+
+(* every pIsLocked node of the store can currently be evaluated *)
+Definition LocksDecided (s : store) (ival : nat -> option Z) (bval : nat -> option bool) : Prop :=
+  forall n nd c, nth_error s n = Some nd -> p_lock nd = Some c -> Decided s ival bval c.
